@@ -12,12 +12,15 @@ def pool(chk, n):
     out = []
     for u in base:
         out.append((0, u, b""))
+    # one upstream part with every kind of revision: equal-looking revisions must be interchangeable
+    for r in [b"1", b"+1", b"01", b"1a", b"1+", b"0", b"", b"~", b"+", b"a"]:
+        out.append((0, b"1", r))
     while len(out) < n:
         u = rand_version_part(rng, 12) or b"0"
         if rng.random() < 0.4 and out:
             e, u0, r0 = rng.choice(out)
             u = gen.mutate(rng, u0, ALPHA)
-        r = rng.choice([b"", b"", b"0", b"1", b"00", b"~1", b"1a"])
+        r = rng.choice([b"", b"", b"0", b"1", b"00", b"~1", b"1a", b"+1", b"1+", b"+", b".1", b"1.", b"01", b"a", b"~", b"+1a", b"1~", b"+01"])
         e = rng.choice([0, 0, 0, 1, 2**31])
         out.append((e, u, r))
     return out[:n]
